@@ -128,9 +128,9 @@ def r3_handlers(ck, cx):
 
 def run(ck, tier):
     cx = Ctx()
-    r1_unit_filter(ck, cx)
-    r2_r5_routing(ck, cx)
-    r3_handlers(ck, cx)
+    ck.guard(r1_unit_filter, ck, cx)
+    ck.guard(r2_r5_routing, ck, cx)
+    ck.guard(r3_handlers, ck, cx)
     ck.rule('R4', 'server-context routing and id interval (shared with C18 R5)')
     sub = type(ck)(ck.pid, ck.tier)
     r5_server_context(sub, cx)
